@@ -690,6 +690,98 @@ def _peer_run(w: ConnWorld, probe: Probe, noise: bool, seq: tuple[str, ...], one
     return out
 
 
+def raising_subscriber_sweep(res: Result, owner: str = "C12", only: str | None = None) -> int:
+    """An application subscriber raises while a message is dispatched to it - any class, including the library's own error classes (an
+    application that forwards to another device hands on that connection's error).  The exception leaves data_received and the transport
+    tears the connection down: that is the end of the session for every subscriber and every waiter.  What may not happen is that the
+    session goes on while some subscriber never saw the message, or while a waiter is left hanging.
+    owner 'C12': the delivery clauses; owner 'C11': the pending call's clause."""
+    import asyncio
+
+    from aioesphomeapi import core
+
+    pb = env.pb()
+    n = 0
+    classes = {"ValueError": ValueError("boom"), "KeyError": KeyError("boom"), "APIConnectionError": core.APIConnectionError("Not connected"),
+               "SocketClosedAPIError": core.SocketClosedAPIError("other device: socket closed"), "TimeoutAPIError": core.TimeoutAPIError("other device"),
+               "OSError": BrokenPipeError(32, "Broken pipe"), "TimeoutError": asyncio.TimeoutError()}
+    for noise in (False, True):
+        for cname, exc in classes.items():
+            for who in (0, 1, 2):
+                for one_chunk in (False, True):
+                    key = f"raising-subscriber:{'noise' if noise else 'plain'}:{cname}:subscriber{who}:{'one-chunk' if one_chunk else 'separate'}"
+                    if only is not None and key != only:
+                        continue
+                    w = ConnWorld(noise=noise, keepalive=1e6)
+                    try:
+                        w.connect_fully()
+                        conn = w.conn
+                        calls: list[tuple[int, float]] = []
+
+                        def make(i: int) -> Any:
+                            def cb(msg: Any) -> None:
+                                calls.append((i, msg.state))
+                                if i == who and msg.state == 1.0:
+                                    raise exc
+                            return cb
+
+                        for i in range(3):
+                            conn.add_message_callback(make(i), (pb.SensorStateResponse,))
+                        aborted = [False]
+                        if owner == "C11":
+                            # ... and application callbacks on the very type the pending call waits for (whichever of them the dispatch reaches
+                            # before the call's own handler raises)
+                            def di_cb(msg: Any) -> None:
+                                aborted[0] = True
+                                raise exc
+
+                            for _ in range(16):
+                                conn.add_message_callback(lambda m, _f=di_cb: _f(m), (pb.DeviceInfoResponse,))
+                        w.spawn("req", lambda: conn.send_message_await_response(mk("DeviceInfoRequest"), pb.DeviceInfoResponse, 10.0))
+                        w.drain()
+                        frames = [w.dframe(mk("SensorStateResponse", key=1, state=1.0)), w.dframe(mk("SensorStateResponse", key=1, state=2.0)),
+                                  w.dframe(mk("DeviceInfoResponse", name="dev"))]
+                        if one_chunk:
+                            w.io_chunk(w.sock, b"".join(frames))
+                            w.drain()
+                        else:
+                            for f in frames:
+                                if w.sock is None or w.sock.closed:
+                                    break
+                                w.io_chunk(w.sock, f)
+                                w.drain()
+                        w.drain()
+                        n += 1
+                        first = sorted(i for i, st in calls if st == 1.0)
+                        later = [(i, st) for i, st in calls if st != 1.0]
+                        d = {"harness": "c12-raising", "key": key, "owner": owner}
+                        closed = conn.connection_state.name == "CLOSED"
+                        if owner == "C12":
+                            if who not in first:
+                                raise HarnessError(f"{key}: the raising subscriber was never called")
+                            if first != [0, 1, 2] and not closed:
+                                res.add(key, f"C12:lost-delivery:subscriber {who} raised {cname} while state 1.0 was dispatched; subscribers {sorted(set(range(3)) - set(first))} "
+                                        f"never saw that message, yet the session goes on (state {conn.connection_state.name})", d)
+                            elif first != [0, 1, 2] and later:
+                                res.add(key, f"C12:delivery-after-abort:subscriber {who} raised {cname}; the dispatch of that message was abandoned, but later messages "
+                                        f"were still delivered: {later}", d)
+                        else:
+                            r = w.results.get("req")
+                            if r is None and not closed:
+                                w.run_timers(w.loop.time() + 30.0)
+                                r = w.results.get("req")
+                            if r is None:
+                                res.add(key, f"C11:hang:a subscriber raised {cname}; the call that was waiting never ended", d)
+                            elif r[0] == "exc" and isinstance(r[1], core.TimeoutAPIError) and (first != [0, 1, 2] or aborted[0]) and r[2] >= w.started["req"] + 10.0 - 1e-6:
+                                res.add(key, f"C11:lost-answer:a subscriber raised {cname}; the call waited out its own timeout although its answer had arrived "
+                                        f"(or the connection had failed) long before", d)
+                            elif r[0] == "exc" and not isinstance(r[1], core.APIConnectionError):
+                                res.add(key, f"C11:unclassified:a subscriber raised {cname}; the waiting call ended {type(r[1]).__name__}", d)
+                    finally:
+                        w.close()
+    return n
+
+
 def run(tier: str, seed: int) -> Result:
     res = Result("C12", "model_checking")
     q = tier == "quick"
@@ -736,6 +828,7 @@ def run(tier: str, seed: int) -> Result:
         rc4 = pool.map_async(keepalive_states_job, [False, True], chunksize=1)
         outs_a, outs_b, outs_c = ra.get(), rb.get() + rb2.get(), rc.get() + rc2.get() + rc3.get() + rc4.get()
     # large varints (plaintext only: the Noise type field is 16 bit)
+    raising_runs = raising_subscriber_sweep(res)
     big_evals = 0
     w, probe = connected(False)
     try:
@@ -786,6 +879,7 @@ def run(tier: str, seed: int) -> Result:
         "undecodable_payload_cases_closed_with_protocol_error": bad_closed,
         "subscribe_histories": evals_b,
         "history_depth": depth,
+        "raising_subscriber_runs": raising_runs,
         "peer_request_sequences": evals_c,
         "exhaustive": True,
         "samples": [
@@ -813,6 +907,11 @@ def replay(rp: dict[str, Any]) -> bool:
             hw.w.close()
         print("->", v)
         return v is None
+    if d.get("harness") == "c12-raising":
+        r = Result("C12", "model_checking")
+        raising_subscriber_sweep(r, d.get("owner", "C12"), only=d["key"])
+        print(d["key"], "->", [v.clause for v in r.violations] or "holds")
+        return not r.violations
     if "stimuli" in d:
         o = keepalive_states_job(bool(d["noise"]))
         bad = [v for v in o["viol"] if v["key"] == rp["key"]]
